@@ -63,7 +63,26 @@ CORPUS = [  # minimal inputs of the findings fixed so far, and other hand-writte
     "e00100ea38" + "00" * 8, "e00100ea39" + "00" * 9 + "2101", "e00100ea3a" + "00" * 10, "e00100ea3d" + "00" * 13,
     "e00100ea3e8e" + "00" * 14 + "2101", "e00100eaba39" + "00" * 9, "e00100eadb8439" + "00" * 9 + "2101",
     # a struct whose bytes end with a field name without a value (unordered, short length, ordered, nested, name only)
+    # timestamps: offset only (no year), month 13, hour without minute
+    "e00100ea6180", "e00100ea621281", "e00100ea61c0", "e00100ea64800fd08d", "e00100ea66800fd0818181", "e00100eab36180 21".replace(" ", ""),
     "e00100eade8484210184", "e00100ead4842101842102", "e00100ead18484210185", "e00100eab5d484210184", "e00100ead184", "e00100ead18184"]
+
+
+def bad_timestamp_body(spec_out):
+    """spec_out: raw answer of `sdecode`; True when some timestamp value in it has a body the Ion rules exclude"""
+    import c15
+    for tok in spec_out.split(" "):
+        tok = tok.split("]")[-1] if "]" in tok else tok
+        if len(tok) >= 1 and tok[0] == "T" and all(ch in "0123456789abcdef" for ch in tok[1:]) and len(tok) % 2 == 1:
+            body = list(bytes.fromhex(tok[1:]))
+            tagged = ([0x60 | len(body)] if len(body) < 14 else [0x6E] + iongen.varuint(len(body))) + body
+            try:
+                st, _ = c15.spec_decode(bytes(tagged))
+            except Exception:
+                continue
+            if st == "invalid":
+                return True
+    return False
 
 
 def run(ctx):
@@ -76,6 +95,18 @@ def run(ctx):
             cases.append((name, e))
     hexes = [iongen.hx(e) for _, e in cases]
     valid = binlib.sdecode_many(hexes)
+    # SpecBin leaves timestamp bodies opaque (T<body>): judge each body with the calendar rules of the C15 oracle
+    # (no year, month 13, hour without minute, ...), so that impossible calendar fields count as malformed here too
+    raw = run_model(["sdecode " + h for h, v in zip(hexes, valid) if isinstance(v, str) and not v.startswith("?")])
+    k = 0
+    n_ts_bad = 0
+    for i, v in enumerate(valid):
+        if isinstance(v, str) and not v.startswith("?"):
+            if bad_timestamp_body(raw[k]):
+                valid[i] = None
+                n_ts_bad += 1
+            k += 1
+    ctx.notes.append("documents valid for SpecBin but holding an impossible timestamp body: %d" % n_ts_bad)
     lines, names = [], []
     for (name, e), h, v in zip(cases, hexes, valid):
         if oracle_silent(ctx, "C07-binary", "btrav 0 " + h, v):
